@@ -619,9 +619,14 @@ func (l *Linter) lintReturnStatement(stmt *ast.ReturnStatement, ctx *context.Con
 		return types.NeverType
 	}
 
-	if !expectState((stmt.ReturnExpression).String(), expects...) {
+	// The action is the identifier itself: String() also renders the comments attached to it
+	action := stmt.ReturnExpression.String()
+	if ident, ok := stmt.ReturnExpression.(*ast.Ident); ok {
+		action = ident.Value
+	}
+	if !expectState(action, expects...) {
 		l.Error(InvalidReturnState(
-			stmt.ReturnExpression.GetMeta(), context.ScopeString(ctx.Mode()), stmt.ReturnExpression.String(), expects...,
+			stmt.ReturnExpression.GetMeta(), context.ScopeString(ctx.Mode()), action, expects...,
 		).Match(RESTART_STATEMENT_SCOPE))
 	}
 	return types.NeverType
